@@ -32,6 +32,12 @@ type Program struct {
 	MirrorUse []string // contract files taken from the mirror because /repo lacks them
 	MirrorDiff []string
 	fnByKey   map[string]*ssa.Function
+	Axioms    []axiomDef
+}
+
+type axiomDef struct {
+	cl   *Clause
+	file *ContractFile
 }
 
 func funcKey(pkgPath, recv, name string) string {
@@ -176,6 +182,9 @@ func (p *Program) addContractFile(cf *ContractFile) {
 	}
 	for _, sf := range cf.Specs {
 		p.Specs[sf.Name] = sf
+	}
+	for _, ax := range cf.Axioms {
+		p.Axioms = append(p.Axioms, axiomDef{cl: ax, file: cf})
 	}
 	if len(cf.Globals) > 0 {
 		p.Globals[cf.PkgPath] = append(p.Globals[cf.PkgPath], cf.Globals...)
